@@ -5,6 +5,13 @@ HERE = os.path.dirname(os.path.abspath(__file__))
 ALL = ["C%02d" % i for i in range(1, 21)]
 
 CHECKS = {
+ "C14": dict(
+  engine="metamorphic",
+  technique="relational run-pair monitor without oracle: complete `lian run` executions of one project with identical options in separate processes (one zygote per PYTHONHASHSEED forking one child per analysis); each child snapshots its artefact tree (SHA-256 of bytes + SHA-256 of decoded tables/JSON with location prefixes substituted); pairs are compared along exactly one dimension; true CLI runs cross-check the fork runner",
+  category="exploration",
+  text="Dimensions: hash seed {0, 1, 2, 12345, one fresh random value passed explicitly}, repetition (3 runs), process history (another project analysed first at the same -w with --force; pre-populated workspace + junk; stale ./lian_workspace in cwd/TMPDIR/HOME), workspace location (longer path; path already containing lian_workspace), input-file creation order (sorted / reversed / shuffled on a tmpfs). Same-path pairs are compared byte-wise over every file under frontend/, semantic_p1/, semantic_p2/, semantic_p3/, taint/ and the dot directories; different-path pairs decoded with the prefix substituted. Quick: 14 projects over all seven frontends, ~146 runs, ~119 run pairs, ~9.5k file pairs; thorough: ~100 projects, ~2020 runs, ~1840 run pairs, ~139k file pairs. Floors per dimension, >= 4 projects with non-empty taint/, all 7 frontends.",
+  note="Trusted: SHA-256, pandas feather decoding, forkpool. Fork-vs-CLI equivalence is checked by 3 (10) true CLI runs; a disagreement is inconclusive. Only module_symbols and taint_data_flow.json embed locations; no artefact embeds a time or pid. The creation-order dimension needs a tmpfs (/dev/shm), otherwise it is skipped and stated. 'Schedules' = hash seed / process history: the target is single-threaded. Reuse of one interpreter for two analyses is out of scope (the statement says separate processes). A verbatim copy of src/ and default_settings/ taken at start keeps one invocation self-consistent.",
+  design="DESIGN.md §C14"),
  "C13": dict(
   engine="workcount",
   technique="logical-work monitoring of complete real `lian run` executions over parameterised adversarial program families: recording wrappers plus sys.monitoring PY_START activation counters (frames, statement transfers, worklist pops, state-space / SFG / call-path sizes, constant-folding sizes), judged by committed polynomial envelopes, a growth-ratio test over n, a constant-folding size bound and a CPU-time watchdog with counter time series",
